@@ -11,6 +11,22 @@ impl Header for XCustom {
     fn display(&self) -> header::HeaderValue { header::HeaderValue::new(Self::name(), self.0.clone()) }
 }
 
+/// caller-defined header types that carry the NAMES of fields the library generates or reads itself
+#[derive(Clone)]
+struct OwnDate(String);
+impl Header for OwnDate {
+    fn name() -> header::HeaderName { header::HeaderName::new_from_ascii_str("Date") }
+    fn parse(s: &str) -> Result<Self, Box<dyn std::error::Error + Send + Sync>> { Ok(Self(s.into())) }
+    fn display(&self) -> header::HeaderValue { header::HeaderValue::new(Self::name(), self.0.clone()) }
+}
+#[derive(Clone)]
+struct OwnCte(String);
+impl Header for OwnCte {
+    fn name() -> header::HeaderName { header::HeaderName::new_from_ascii_str("Content-Transfer-Encoding") }
+    fn parse(s: &str) -> Result<Self, Box<dyn std::error::Error + Send + Sync>> { Ok(Self(s.into())) }
+    fn display(&self) -> header::HeaderValue { header::HeaderValue::new(Self::name(), self.0.clone()) }
+}
+
 fn s(h: &str) -> Option<String> { String::from_utf8(unhex(h)).ok() }
 
 pub fn dispatch(f: &[&str]) -> String {
@@ -90,6 +106,21 @@ pub fn dispatch(f: &[&str]) -> String {
             let Ok(m) = to.parse::<lettre::message::Mailboxes>() else { return "unparseable".into() };
             let r = lettre::Message::builder().from("a@x.example".parse().unwrap()).mailbox(header::To::from(m)).body(String::from("x"));
             match r { Ok(m) => format!("ok\t{}", m.envelope().to().len()), Err(e) => format!("err\t{e}") }
+        }
+        "msg.own_typed" => {
+            // f[1] text of a caller-supplied Date field ("-" = none), f[2] text of a caller-supplied Content-Transfer-Encoding field ("-" = none),
+            // f[3] shape: raw | single | multi
+            let (Some(d), Some(c)) = (s(f[1]), s(f[2])) else { return "invalid-utf8".into() };
+            use lettre::message::{MultiPart, SinglePart};
+            let mut b = lettre::Message::builder().from("a@x.example".parse().unwrap()).to("b@y.example".parse().unwrap()).subject("s");
+            if f[1] != "2d" { b = b.header(OwnDate(d)); }
+            let part = || { let mut p = SinglePart::builder(); if f[2] != "2d" { p = p.header(OwnCte(c.clone())); } p.header(header::ContentType::TEXT_PLAIN).body(String::from("text\r\n")) };
+            let r = match f[3] {
+                "raw" => { if f[2] != "2d" { b = b.header(OwnCte(c.clone())); } b.body(String::from("text\r\n")) }
+                "single" => b.singlepart(part()),
+                _ => b.multipart(MultiPart::mixed().boundary("BOUNDARY-own-0001").singlepart(part()).singlepart(part())),
+            };
+            match r { Ok(m) => format!("ok\t{}", hex(&m.formatted())), Err(e) => format!("err\t{e}") }
         }
         "c19.from_empty" => {
             // a From header holding an empty mailbox list
